@@ -65,8 +65,10 @@ def run(ctx):
               '' if live_now == RECS else 'library table %r' % (live_now,))
     def record_of(ev, g_):
         # the property's reading: the record of the athlete's gender (any letter case), else the better of the two
+        # — of the generic event when the code carries an implement weight ('SP7.26K', 'jt 800'): its leading letters
         t = RECS.get(g_.lower()) or RECS['all']
-        return t.get(ev.upper())
+        u = ev.upper()
+        return t.get(u) if u in t else t.get(re.match(r'[A-Z]*', u).group())
     rng = ctx.rng
     lang = CC.enumerate_codes(ctx, trees, alpha, codes, per_alt=2, extra=1500)
     lang = [s for s in lang if s.strip() == s and s and s.isascii()]
@@ -203,7 +205,7 @@ def run(ctx):
             fail('validating %r again returns it unchanged' % r, r2 if st2 == 'ok' else st2, why)
     # ---- the record window for every record event x gender spelling, marks around 1.2 x the record
     nwin = 0
-    for ev in sorted(RECS['m']):
+    for ev in sorted(RECS['m']) + ['SP7.26K', 'SP4K', 'DT2K', 'DT1K', 'JT800', 'JT600', 'HT7.26K', 'HT4K', 'WT15.88K', 'WT9.08K', 'sp 4kg', 'dt1.5k']:
         for g_ in ['m', 'f', 'M', 'F', 'all', 'ALL', 'x']:
             rec = record_of(ev, g_)
             lim = int(round(rec * 120))            # hundredths
